@@ -35,7 +35,12 @@ static inline int64_t l0_rank_at(uint64_t idx) {
   L0_assert(0, "UNDECIDED: the code consulted an element whose index is not among the registered ones");
   return nondet_int();
 }
+#ifdef KEY_FLOATING
+/* emplace: the key is the element the function itself builds from its arguments -- any element object outside the sequence */
+static inline _Bool l0_is_key(const E *p) { return OBJ(p) != g_set_obj; }
+#else
 static inline _Bool l0_is_key(const E *p) { return OBJ(p) == g_key_obj && OFF(p) == g_key_off; }
+#endif
 static inline int64_t l0_rank_of(const E *p) {
   if (l0_is_key(p)) return g_key_rank;
   if (OBJ(p) == g_set_obj && OFF(p) >= g_set_off && (OFF(p) - g_set_off) / ESZ < g_set_n) return l0_rank_at((OFF(p) - g_set_off) / ESZ);
